@@ -8,7 +8,7 @@ trap 'git -C /repo worktree remove --force "$WT" >/dev/null 2>&1 || true' EXIT
 cd "$WT" || exit 2
 export CARGO_TARGET_DIR=$POOL CARGO_NET_OFFLINE=true CARGO_INCREMENTAL=0
 git apply "$D/demo.diff" || { echo "demo.diff does not apply"; exit 2; }
-CMD=$(grep -v '^#' "$D/demo_cmd.txt" | grep cargo | head -1)
+CMD=$(grep -v '^#' "$D/demo_cmd.txt" | grep cargo | head -1 | sed -E 's/cd <worktree> *&& *//; s/CARGO_TARGET_DIR=[^ ;]+//g')
 echo "demo cmd: $CMD"
 sh -c "$CMD" > /tmp/cf-$$.a 2>&1; A=$?
 git apply "$D/patch.diff" || { echo "patch.diff does not apply"; exit 2; }
